@@ -92,10 +92,11 @@ fn unrel(k: &ReliabilityQosPolicyKind) -> i64 {
     if *k == ReliabilityQosPolicyKind::BestEffort { 0 } else { 1 }
 }
 fn bytes(x: i64) -> Vec<u8> {
-    if x == 0 { vec![] } else { vec![x as u8, 42] }
+    if x == 0 { vec![] } else if x == 2 { (0..70_000usize).map(|k| (k % 251) as u8).collect() } else { vec![x as u8, 42] }
 }
 fn unbytes(v: &[u8]) -> i64 {
-    if v.is_empty() { 0 } else if v.len() == 2 && v[1] == 42 { v[0] as i64 } else { -1 }
+    if v.is_empty() { 0 } else if v.len() == 2 && v[1] == 42 { v[0] as i64 }
+    else if v.len() == 70_000 && v.iter().enumerate().all(|(k, b)| *b == (k % 251) as u8) { 2 } else { -1 }
 }
 fn limits(q: &Value) -> ResourceLimitsQosPolicy {
     ResourceLimitsQosPolicy { max_samples: len(n(q, "ms")), max_samples_per_instance: len(n(q, "mspi")), ..Default::default() }
